@@ -138,6 +138,21 @@ CLAIMED["C10"] = dict(
          "Python int()/float() literal grammars. Constructs outside the translator's subset give INCONCLUSIVE (fail closed).",
     ref="DESIGN.md section 6 C10", technique="AST-to-SMT translation of the real functions, z3 (strings/regex + linear arithmetic), unsat = holds for all values in range, sat models replayed",
     engine="smt")
+CLAIMED["C01"] = dict(
+    text="Composition check of the real driver, router and client code over the tree wire: a 3-level inherited driver (5 vector kinds, 3 groups) and a "
+         "second device; symbolic state of a focus vector, getProperties handshake by a single-connection client, the library's two-connection client "
+         "or another driver's snooping client, then one symbolic operation (8 kinds, driver side and client write) with symbolic arguments; the "
+         "client's public view must equal the view computed from the driver's public attributes. Byte-level fragmentation and XML text enter as the "
+         "separately checked premises C02 and C03.",
+    note="Trusted: tree wire (C03), framing (C02); one operation per condition after an arbitrary (symbolic) focus state -- an inductive step, not long histories.",
+    ref="DESIGN.md section 6 C01", technique=XH)
+CLAIMED["C06"] = dict(
+    text="The real client write path (Element.value, Vector.submit, to_new_message) -> tree wire -> Router -> Driver.from_new_message -> setters and "
+         "back into the client mirror: symbolic non-empty element subset and values (text, switch bits, number spellings incl. sexagesimal, BLOB "
+         "length) on five target vectors with a same-named vector on a second device; a snapshot of every element of every device must differ exactly "
+         "on the targeted elements, by the value sent; pending values cleared; mirror updated.",
+    note="Trusted: tree wire (C03); switch-rule side effects are C09's subject; numbers compared numerically.",
+    ref="DESIGN.md section 6 C06", technique=XH)
 NA_DEFAULT = "check not built yet in this round (no verdict claimed); see DESIGN.md section 6 for the plan"
 
 checks, na = [], []
